@@ -9,6 +9,7 @@ writeToZip) defined over the regenerated facts `Facts.C12`; `facts_ok` pins
 the facts the proofs were written for.
 -/
 import XlModel.Lemmas.Store9
+import XlModel.Lemmas.Sst
 
 namespace XlModel.Props.C12
 open XlModel XlModel.Store
@@ -285,6 +286,41 @@ theorem nonvacuous_history :
   · intro p hp; simp at hp; subst hp; decide
   · intro p hp; cases hp
   · intro hd; exact absurd hd (by decide)
+
+/-! ## the shared-string table as an object: "decoded from memory or streamed from temporary files" -/
+
+/-- `sst_refines_list`: the shared-string machine (decoded part in memory or in a temp file,
+`File.SharedStrings` incl. the empty placeholder decoded while the part is spilled, the index temp
+file, `sharedStringsMap`, loader / reader / getValueFrom / setSharedString / writer) refines a
+plain list of items: for **every** history of reads (cell, Rows, Cols), loader calls, string
+writes and saves, every string returned, every index assigned by a write, and the resulting table
+are those of the plain list -/
+theorem sst_refines_list (st : Sst.St) (i : Sst.Inv st) (ops : List Sst.Op) :
+    (Sst.run st ops).2 = (Sst.Spec.run (Sst.abs st) ops).2 ∧
+    Sst.abs (Sst.run st ops).1 = (Sst.Spec.run (Sst.abs st) ops).1 :=
+  ⟨(Sst.run_refines ops i).1, (Sst.run_refines ops i).2.1⟩
+
+/-- the same history on the same shared strings part gives the same strings and the same indexes
+whether the part was spilled at open (small UnzipXMLSizeLimit) or kept in memory -/
+theorem sst_tier_independent (part : Sst.Tab) (ops : List Sst.Op) :
+    (Sst.run { part := part, spilled := true, inPkg := false } ops).2 =
+    (Sst.run { part := part, spilled := false, inPkg := true } ops).2 := by
+  have a := Sst.run_refines ops (Sst.Inv.init part true false (fun h => by cases h))
+  have b := Sst.run_refines ops (Sst.Inv.init part false true (fun _ h => by cases h))
+  rw [a.1, b.1]
+  rfl
+
+/-- the i-th string read is independent of the tier, of the table object currently held and of
+everything read or written before: in every reachable state it is the i-th item of the abstract table -/
+theorem string_read_independent (st : Sst.St) (i : Sst.Inv st) (n : Nat) :
+    (Sst.getStr (Sst.sstRead st) n).2 = (((Sst.abs st)[n]?).map (·.text)).getD (Sst.fallback n) :=
+  Sst.getStr_spec i n
+
+/-- the first string write after numeric-only reads of a spilled table appends to the *real* table:
+witness of the C12b/1 / C02a/2 class (a placeholder table that survives the loader) being excluded -/
+theorem first_write_after_numeric_read :
+    (Sst.run { part := [⟨some "a", "a"⟩, ⟨some "b", "b"⟩], spilled := true, inPkg := false }
+      [.read, .set "c" "c", .get 0, .get 2]).2 = [.none, .idx 2, .str "a", .str "c"] := by decide
 
 /-! ## non-vacuity -/
 
